@@ -13,6 +13,11 @@ NOTES = ("Technique family: machine-checked proof in Coq 8.16.1. Every check = P
 NOT_CLAIMED = {}
 
 
+# properties whose check the lead has verified quiet on the unchanged tree; the others are listed
+# under not_applicable ("being built") until then
+READY = ["C08", "C09", "C13", "C14", "C15", "C17", "C18", "C19", "C20"]
+
+
 def _claims():
     out = {}
     d = os.path.dirname(__file__)
@@ -20,8 +25,11 @@ def _claims():
         m = re.match(r"^(C[0-9]{2,3})\.py$", fn)
         if not m:
             continue
-        mod = importlib.import_module("checks." + m.group(1))
-        if getattr(mod, "CLAIM", None):
+        try:
+            mod = importlib.import_module("checks." + m.group(1))
+        except Exception:
+            continue
+        if getattr(mod, "CLAIM", None) and m.group(1) in READY:
             out[m.group(1)] = mod.CLAIM
     return out
 
